@@ -42,7 +42,7 @@ def run_task(task):
         cross_fn = getattr(mod, task.get('crosscheck', 'crosscheck'), None) if task.get('cross', True) else None
         stats = res
         replayed = {}
-        budget = float(os.environ.get('VF_TASK_BUDGET_S', task.get('budget_s', 600)))
+        budget = float(os.environ.get('VF_TASK_BUDGET_S', task.get('budget_s', 900)))
         for r in explore(run, max_paths=task.get('max_paths', 400000), part=task.get('part')):
             res['paths'] += 1
             if time.time() - t0 > budget:
